@@ -143,13 +143,21 @@ def hdr_dispatch(wire: bytes, plain: bool) -> bool:
     rbit = wire[4] >= 128
     T = exp_class(code, bool(rbit), bool(plain))
     typed = issubclass(T, DefinedMessage) and not plain and T is not REG.get(code)
-    if typed:
-        fl_obs, fl_exp = h.command_flags % 64, wire[4] % 64          # R and P are normalised by typed classes
+    if typed and "c02_typed_decode_forces_p" in P.get("carve", ()):
+        # known finding: typed classes force the P bit their ABNF prescribes; everything else must be the wire's
+        fl_obs, fl_exp = h.command_flags % 64, wire[4] % 64
         rp = (h.is_request == (wire[4] >= 128))
     else:
         fl_obs, fl_exp = h.command_flags, wire[4]
         rp = True
     return hx.check((wire, plain), (type(m).__name__, fl_obs, rp), (T.__name__, fl_exp, True), "class dispatch by command code and R bit / flags")
+
+
+def repro_typed_decode_forces_p():
+    """known finding: decoding a typed command rewrites the P bit"""
+    w = ref_header(1, 20, 0x80, 272, 4, 1, 2)
+    m = Message.from_bytes(w)
+    return m.header.command_flags != 0x80, "CCR header with flags 0x80 decodes with flags %#x (%s)" % (m.header.command_flags, type(m).__name__)
 
 
 def register_cmd(rbit: bool, hbh: int) -> bool:
